@@ -323,6 +323,10 @@ impl Monitor for C01 {
             return;
         }
         ctx.count("in_domain");
+        let mut doc = doc;
+        if rng.chance(1, 12) && inject_cr(&mut doc, rng) {
+            ctx.count("carriage_return_in_comment_or_pi");
+        }
         let style = *rng.pick(&crate::build::STYLES);
         let mut xot = Xot::new();
         let built = match guard(|| build::build(&mut xot, &doc, route, style)) {
@@ -383,6 +387,67 @@ impl Monitor for C01 {
             ctx.count("feature.unns_under_default");
         }
         roundtrip_check(ctx, &mut xot, built.node, &doc, "api");
+        // an inner element serialised on its own (it stays in its tree): the text must be accepted and mean the same
+        // subtree; the serialiser adds the inherited declarations the names need on the top element
+        if !ctx.has_violation_in_case() && !gen::has_unns_under_default(&doc) {
+            let pairs: Vec<(xot::Node, &ANode)> = {
+                fn rec<'a>(a: &'a ANode, h: &crate::snap::HTree, out: &mut Vec<(xot::Node, &'a ANode)>, top: bool) {
+                    if a.kind == AKind::Elem && !top {
+                        out.push((h.node, a));
+                    }
+                    for (c, hc) in a.children.iter().zip(h.children.iter()) {
+                        rec(c, hc, out, false);
+                    }
+                }
+                let mut v = Vec::new();
+                rec(&doc, &built, &mut v, true);
+                v
+            };
+            if !pairs.is_empty() {
+                let (n, sub) = pairs[rng.below(pairs.len())];
+                match ser(&xot, n) {
+                    Ok(Ok(text)) => {
+                        let mut x2 = Xot::new();
+                        match guard(|| x2.parse(&text)).map(|r| r.map_err(|e| format!("{:?}", e))) {
+                            Ok(Ok(d2)) => {
+                                if let Ok(got) = snap_guarded(&x2, d2) {
+                                    let want = ANode::doc(vec![sub.clone()]).canon();
+                                    if got.canon() != want {
+                                        ctx.violation(
+                                            "an inner element serialised on its own reparses to another subtree",
+                                            format!("C01/inner-element/parse/differs/{}", diff_class(&first_diff(&want, &got.canon()).unwrap_or_default())),
+                                            J::obj().set("tree", doc.to_json()).set("element", sub.to_json()).set("text", J::s(trunc(&text, 800))),
+                                        );
+                                        return;
+                                    }
+                                    ctx.count("inner_elements_roundtripped");
+                                }
+                            }
+                            other => {
+                                ctx.violation(
+                                    "the serialisation of an inner element is rejected by the parser",
+                                    "C01/inner-element/parse/rejected".to_string(),
+                                    J::obj().set("tree", doc.to_json()).set("element", sub.to_json()).set("text", J::s(trunc(&text, 800))).set("outcome", J::s(format!("{:?}", other.map(|r| r.map(|_| ())).map_err(|p| p.short())))),
+                                );
+                                return;
+                            }
+                        }
+                    }
+                    Ok(Err(e)) => {
+                        ctx.violation(
+                            "an inner element of a representable tree does not serialise on its own",
+                            format!("C01/inner-element/to_string/error/{}", err_variant(&e)),
+                            J::obj().set("tree", doc.to_json()).set("element", sub.to_json()).set("error", J::s(format!("{:?}", e))),
+                        );
+                        return;
+                    }
+                    Err(p) => {
+                        ctx.violation("serialisation of an inner element panicked", format!("C01/inner-element/to_string/panic/{}", p.sig()), J::obj().set("tree", doc.to_json()).set("panic", J::s(p.short())));
+                        return;
+                    }
+                }
+            }
+        }
         ctx.sample(|| J::obj().set("tree", doc.to_json()).set("route", J::s(format!("{:?}", route))));
     }
 }
